@@ -83,17 +83,25 @@ CPU_USER_CFG = {
 
 
 def cpu_count_cfg(path):
+    """both paths of cpu_count: logical cores, and only_physical_cores=True with the physical-core count as a parameter
+    (phys : option Z, None = "not found"; _count_physical_cores only reports counts >= 1)"""
+    node, _ = translate.find_function(path, "cpu_count")
     skips = ["if sys.platform == 'win32':\n    os_cpu_count = min(os_cpu_count, _MAX_WINDOWS_WORKERS)"]
+    for st in node.body:   # the statement that only warns about a failed physical-core lookup
+        if isinstance(st, ast.If) and ast.unparse(st.test) == "exception is not None" and not st.orelse and all(
+                isinstance(b_, ast.Expr) and isinstance(b_.value, ast.Call) for b_ in st.body):
+            skips.append(ast.unparse(st))
     return {
         "params": [("os_raw", "option Z"), ("aff", "option Z"), ("cg", "option Z"), ("loky_env", "option Z"),
-                   ("only_physical_cores", "bool")],
+                   ("phys", "option Z"), ("only_physical_cores", "bool")],
         "env": {"only_physical_cores": ("only_physical_cores", "bool")},
         "subst": {
             "os.cpu_count() or 1": ("(match os_raw with Some c => if c =? 0 then 1 else c | None => 1 end)", "Z"),
             "_cpu_count_user(os_cpu_count)": ("cpu_count_user os_cpu_count aff cg loky_env", "Z", True),
+            "cpu_count_physical != 'not found'": ("(match phys with Some _ => true | None => false end)", "bool"),
         },
-        # everything after `if not only_physical_cores: return ...` concerns physical cores only
-        "truncate_after_if": "not only_physical_cores",
+        "bind": {"cpu_count_physical, exception = _count_physical_cores()":
+                 [("cpu_count_physical", "(match phys with Some p => p | None => 0 end)", "Z")]},
         "skip": skips, "ret": "Z",
     }
 
@@ -339,7 +347,7 @@ def generate(repo=None):
     code, sk = translate.translate_function(cx, "_cpu_count_user", "cpu_count_user", CPU_USER_CFG)
     parts.append("(* loky.backend.context._cpu_count_user *)\n" + code)
     code, sk2 = translate.translate_function(cx, "cpu_count", "cpu_count", cpu_count_cfg(cx))
-    parts.append("(* loky.backend.context.cpu_count, only_physical_cores=False path *)\n" + code)
+    parts.append("(* loky.backend.context.cpu_count (phys = what _count_physical_cores() reports, None = 'not found') *)\n" + code)
     text = HEADER + "\n".join(parts)
     out = os.path.join(common.COQ, "Gen", "T_njobs.v")
     changed = common.write_if_changed(out, text)
